@@ -4,7 +4,7 @@
 # the demonstration fails with it and passes without it. On success writes <out-dir>/{patch.diff,demo...,meta.json}.
 set -u
 export GOFLAGS=-mod=mod GOPROXY=off GOSUMDB=off GOTOOLCHAIN=local
-SRC="$(readlink -f "$1")"; PROP="$2"; OUT="$3"
+SRC="$(readlink -f "$1")"; PROP="$2"; OUT="$(readlink -m "$3")"
 W=/var/tmp/confwt-$$
 git -C /repo worktree add -q --detach "$W" HEAD || exit 2
 trap 'git -C /repo worktree remove --force "$W" >/dev/null 2>&1; rm -rf "$W"' EXIT
